@@ -27,7 +27,7 @@
 (* the theorem must expose (anti-vacuity), "per-minus" is a symmetric      *)
 (* alternative that must NOT be exposed.                                   *)
 (***************************************************************************)
-EXTENDS Exact, ObsArith, FiniteSets, TLC
+EXTENDS Exact, ObsArith, FiniteSets, TLC, Json
 
 CONSTANTS Amps,       \* set of Gaussian integers the amplitudes range over (no zero)
           NExh,       \* n = 1..NExh enumerated exhaustively
@@ -163,7 +163,7 @@ Init == \/ /\ st = "pre" /\ idx = 0
         \/ /\ st = "lane" /\ \E k \in 1..Lanes : idx = k
            /\ idx <= Len(Supplied) /\ C = <<>>
         \/ /\ st = "ops" /\ idx = 0 /\ \E n \in OpsNs : C = [n |-> n]
-        \/ /\ st = "faults" /\ idx = 0 /\ C = <<>>
+        \/ /\ st = "faults" /\ idx = 0 /\ \E v \in Faults \cup {"code", "per-minus"} : C = [v |-> v]
 Pick == /\ st = "pre"
         /\ \E rest \in [1..(Dim(C.n) - 1) -> Amps] :
               LET v1 == [k \in 1..Dim(C.n) |-> IF k = 1 THEN C.a ELSE rest[k - 1]] IN
@@ -217,11 +217,16 @@ OpsPauli == AtOps =>
     /\ M2Mul(PauliX, PauliX) = Id2 /\ M2Mul(PauliY, PauliY) = Id2 /\ M2Mul(SpinZ, SpinZ) = Id2
     /\ M2Mul(PauliX, PauliY) = [a \in 1..2 |-> [b \in 1..2 |-> ZMul(ZI, ZNeg(SpinZ[a][b]))]]
 
-(* seeded faults in the model of the code: each must be exposed on some witness *)
-ExposedAt(v) == {<<w, j>> \in (1..Len(Witness)) \X (1..9) :
+(* seeded faults in the model of the code (state "faults", one per variant): each must be exposed  *)
+(* on some witness; the implementation as it stands and the symmetric alternative on none.  The    *)
+(* verdict is also printed for the harness (one JSON line per variant).                            *)
+MaxOps == 13
+ExposedAt(v) == {<<w, j>> \in (1..Len(Witness)) \X (1..MaxOps) :
                     j <= NOps(Witness[w].n) /\ ~UnbiasedFor(v, Witness[w], j)}
-FaultsExposed == st = "faults" => \A v \in Faults : ExposedAt(v) # {}
-AlternativeNotExposed == st = "faults" => ExposedAt("per-minus") = {} /\ ExposedAt("code") = {}
+FaultsExposed == st = "faults" =>
+    LET E == ExposedAt(C.v) IN
+    /\ PrintT(ToJson([fault |-> C.v, exposed |-> Cardinality(E)]))
+    /\ IF C.v \in Faults THEN E # {} ELSE E = {}
 
 -----------------------------------------------------------------------------
 (* export of the operator structure *)
@@ -232,6 +237,5 @@ RowOf(n, j, k) == LET all == [l \in 1..Dim(n) |-> [to |-> l - 1, coef |-> Coef(O
 OpsRecord(n) == [n |-> n, ops |-> [j \in 1..NOps(n) |->
                     [op |-> OpList(n)[j], den |-> n, dense |-> OpTab[n][j],
                      rows |-> [k \in 1..Dim(n) |-> RowOf(n, j, k)]]]]
-FaultsRecord == [faults |-> [v \in Faults |-> Cardinality(ExposedAt(v))]]
 
 =============================================================================
